@@ -218,7 +218,7 @@ impl Net {
             notified.await;
         }
     }
-    fn endpoint_tx(&self, dst: u32) -> Option<(mpsc::Sender<InboundEvent>, u64, u64, u64)> {
+    pub fn endpoint_tx(&self, dst: u32) -> Option<(mpsc::Sender<InboundEvent>, u64, u64, u64)> {
         let g = self.inner.lock().unwrap();
         g.nodes.get(&dst).map(|e| (e.event_tx.clone(), e.vote_handler_timeout_ms, e.generic_handler_timeout_ms, e.snapshot_rpc_timeout_ms))
     }
